@@ -1679,9 +1679,81 @@ def with_malformed(run, kinds):
 reg("C13", ["Props.C13_pulled_debug_has_inputs", "Props.C13_flag_off_no_debug", "Props.C13_debug_nodes_never_influence", "Props.C12_selection_is_closure",
             "Props.C13_C11_build_rule", "Props.C13_accepted_table_debug_never_influences"],
     with_malformed(run_G, ["normal-on-debug"]), ASSUME_G)
+def nested_setup_histories():
+    """A setup node inside a DAG that an outer DAG calls — plainly, or under an activation flag computed at run time — is
+    still a setup node of the outer instance: over setup() / calls / an executor run it executes at most once and every
+    run sees the first value.  Yields (variant, problems)."""
+    import copy as _copy
+    from tawazi import dag as _dag, xn as _xn
+    cnt = {"s": 0}
+
+    def sv():
+        cnt["s"] += 1
+        return ("setupval", cnt["s"])
+
+    def w(x, s_):
+        return (x, s_)
+
+    def truthy(f):
+        return f
+    for f_ in (sv, w, truthy):
+        f_.__qualname__ = f_.__name__
+    xsv, xw, xt = _xn(sv, setup=True), _xn(w), _xn(truthy)
+
+    def inner(x):
+        return xw(x, xsv())
+    inner_d = _dag(inner)
+
+    def outer_flag(x, flag):
+        return inner_d(x, twz_active=xt(flag))
+
+    def outer_plain(x, flag):
+        return inner_d(x), xt(flag)
+    for variant, desc in (("runtime-flag", outer_flag), ("plain", outer_plain)):
+        for first in ("setup", "call", "falsy-call"):
+            o = _dag(desc)
+            cnt["s"] = 0
+            bad = []
+            try:
+                if first == "setup":
+                    o.setup()
+                elif first == "falsy-call":
+                    o(0, False)
+                rs = [o(1, True), o(2, True), o.executor()(3, True)]
+                seen = []
+                for k_, r in enumerate(rs, 1):
+                    r0 = r if variant == "runtime-flag" else r[0]
+                    if not (isinstance(r0, tuple) and r0[0] == k_):
+                        bad.append("run %d returned %r" % (k_, r))
+                    else:
+                        seen.append(r0[1])
+                if cnt["s"] != 1:
+                    bad.append("the nested setup node executed %d times" % cnt["s"])
+                if len(set(map(repr, seen))) > 1:
+                    bad.append("runs saw different setup values: %r" % (seen,))
+            except BaseException as e:  # noqa: BLE001
+                bad.append("raised %s: %s" % (type(e).__name__, str(e)[:120]))
+            yield "%s/%s-first" % (variant, first), bad
+
+
+def with_nested_setup(run):
+    def wrapped(pid, tier, seed):
+        cov, fs, searcher = run(pid, tier, seed)
+        n = 0
+        for variant, problems in nested_setup_histories():
+            n += 1
+            if problems:
+                fs.append(Failure("counterexample", "nested-setup-node-not-treated-as-setup(%s)" % variant, dict(variant=variant),
+                                  dict(problems=problems), slice_="H"))
+        cov["nested_setup_histories"] = n
+        cov["evaluations"] += n
+        return cov, fs, searcher
+    return wrapped
+
+
 reg("C11", ["Props.C11_setup_at_most_once", "Props.C11_first_value_kept", "VM.not_entered_of_res", "Props.C11_runs_only_what_selection_needs", "Props.C11_later_executions_see_first_value",
             "Props.C11_kept_executors", "Props.C11_kept_executor_sees_current_setup", "Props.C11_setup_value_independent_of_arguments",
-            "Props.C13_C11_build_rule", "Props.C15_accepted_table_call_after_history_is_fresh", "Props.C11_setup_selection", "Props.C12_targets_only"], with_malformed(run_H, ["setup-on-normal", "setup-on-arg"]), ASSUME_H)
+            "Props.C13_C11_build_rule", "Props.C15_accepted_table_call_after_history_is_fresh", "Props.C11_setup_selection", "Props.C12_targets_only"], with_nested_setup(with_malformed(run_H, ["setup-on-normal", "setup-on-arg"])), ASSUME_H)
 def run_H_and_composeprobe(pid, tier, seed):
     cov, fs, _ = run_H(pid, tier, seed)
     covc, fsc, _ = run_C(pid, tier, seed)
